@@ -110,24 +110,32 @@ def resolve_locals(body, blocks, atoms):
     return out
 
 
-def resolve_value(body, blocks, t):
-    """a returned multi-definition local -> the value it was last given on this path"""
-    for _ in range(4):
-        if not (isinstance(t, tuple) and t and t[0] == "local"):
-            return t
-        l = t[1]
-        last = None
-        for bb in blocks:
-            b = body.blocks[bb]
-            for st in b["stmts"]:
-                if st["k"] == "assign" and st["dst"]["l"] == l and not st["dst"]["p"]:
-                    last = body.rvalue_term(st["rv"])
-            tm = b["term"]
-            if tm["k"] == "call" and tm["dst"]["l"] == l and not tm["dst"]["p"]:
-                last = body.call_term(bb, tm)
+def _last_def(body, blocks, l):
+    last = None
+    for bb in blocks:
+        b = body.blocks[bb]
+        for st in b["stmts"]:
+            if st["k"] == "assign" and st["dst"]["l"] == l and not st["dst"]["p"]:
+                last = body.rvalue_term(st["rv"])
+        tm = b["term"]
+        if tm["k"] == "call" and tm["dst"]["l"] == l and not tm["dst"]["p"]:
+            last = body.call_term(bb, tm)
+    return last
+
+
+def resolve_value(body, blocks, t, _depth=0):
+    """multi-definition locals inside a returned term -> the value they were last given on this path (deep)"""
+    if _depth > 6 or not isinstance(t, tuple) or not t:
+        return t
+    if t[0] == "local":
+        last = _last_def(body, blocks, t[1])
         if last is None or last == t:
             return t
-        t = last
+        return resolve_value(body, blocks, last, _depth + 1)
+    if t[0] in ("call",):
+        return (t[0], t[1], tuple(resolve_value(body, blocks, a, _depth + 1) for a in t[2])) + tuple(t[3:])
+    if t[0] == "agg" and len(t) > 3:
+        return (t[0], t[1], t[2], tuple((n, resolve_value(body, blocks, v, _depth + 1)) for (n, v) in t[3])) + tuple(t[4:])
     return t
 
 
